@@ -575,6 +575,24 @@ package skiplist
 //@ ensures[scalars] report.SoftDeletes == old(report.SoftDeletes) + s.softDeletes && report.Memory == old(report.Memory) + s.usedBytes && report.NodeAllocs == old(report.NodeAllocs) + s.nodeAllocs && report.NodeFrees == old(report.NodeFrees) + s.nodeFrees
 //@ nopanic
 
+// GetStats: the report of a structure is Apply on a zeroed report - node count is the sum of the per-level
+// distribution, which is exactly the global per-level counters; scalars are the global counters.
+//@ func (*Skiplist).GetStats
+//@ props C14
+//@ use sumTo-def sumTo-frame
+//@ requires s != nil
+//@ requires[small] forall k int {s.Stats.levelNodesCount[k]} :: 0 <= k && k <= 32 ==> -1000000000000 < s.Stats.levelNodesCount[k] && s.Stats.levelNodesCount[k] < 1000000000000
+//@ ensures[distribution] forall k int {result.NodeDistribution[k]} :: 0 <= k && k <= 32 ==> result.NodeDistribution[k] == s.Stats.levelNodesCount[k]
+//@ ensures[node-count] result.NodeCount == sumTo(result.NodeDistribution, 33)
+//@ ensures[scalars] result.SoftDeletes == s.Stats.softDeletes && result.Memory == s.Stats.usedBytes && result.NodeAllocs == s.Stats.nodeAllocs && result.NodeFrees == s.Stats.nodeFrees
+//@ nopanic
+
+//@ func (*Skiplist).MemoryInUse
+//@ props C14
+//@ requires s != nil
+//@ ensures[used-bytes] result == s.Stats.usedBytes
+//@ nopanic
+
 // Ghost allocator (C07/C04): mlive = blocks obtained from the configured allocator and not yet returned to it.
 // mmMode: the instance uses user-managed memory (the statements about mlive are conditional on it).
 //@ ghost global mlive [ref]bool
